@@ -561,6 +561,8 @@ class Extractor:
             x = as_val(self.ev(args[0], env))
             if 'dtype' in kws and dotted(kws['dtype']) not in ('float', 'np.float64', 'np.float_'):
                 raise OutOfSubset('dtype %s' % ast.unparse(kws['dtype']))
+            if fn == 'np.asarray' and 'dtype' not in kws:
+                return x                                  # np.asarray of an array is the array itself (alias)
             return self.copy_of(x, 'dtype' in kws)
         if fn == 'np.where' and len(args) == 1 and not e.keywords:
             x = self.ev(args[0], env)
@@ -898,18 +900,20 @@ TARGETS = [
     # given-partition quality: kci is a label vector (not None), gamma a real scalar
     (MOD, 'modularity_und', {'A': 'mat', 'gamma': 'scalar', 'kci': 'vec'}),
     (MOD, 'modularity_dir', {'A': 'mat', 'gamma': 'scalar', 'kci': 'vec'}),
-    # Kn0 / Kn1 are accumulated by a loop over modules (outside the subset): declared opaque = free vector parameters
-    (MOD, 'modularity_und_sign', {'W': 'mat', 'ci': 'vec', 'qtype': ('const', 'sta')}, {'Kn0': 'vec', 'Kn1': 'vec'}),
 ]
+# modularity_und_sign, one definition per documented qtype (the string parameter is fixed, the if/elif chain is decided statically).
+# Kn0 / Kn1 are accumulated by a loop over modules (outside the subset): declared opaque = free vector parameters
+for _q in ('sta', 'smp', 'gja', 'pos', 'neg'):
+    TARGETS.append((MOD, 'modularity_und_sign', {'W': 'mat', 'ci': 'vec', 'qtype': ('const', _q)}, {'Kn0': 'vec', 'Kn1': 'vec'}, '_' + _q))
 
 LEAN_TYPES = {'M': 'Fin n → Fin n → ℝ', 'V': 'Fin n → ℝ', 'S': 'ℝ'}
 
 
-def extract_function(ex, rel, name, kinds, opaque=None):
+def extract_function(ex, rel, name, kinds, opaque=None, suffix=''):
     """returns (list of (lean_name, lean_text), report)"""
     src, nd = ex.fundef(rel, name)
     seg = ast.get_source_segment(src, nd) or ''
-    report = {'function': name, 'file': rel, 'sha1': hashlib.sha1(seg.encode()).hexdigest()[:12], 'taken': [], 'dropped': [], 'poisoned': [],
+    report = {'function': name, 'target': name + suffix, 'file': rel, 'sha1': hashlib.sha1(seg.encode()).hexdigest()[:12], 'taken': [], 'dropped': [], 'poisoned': [],
               'decorators': [ast.unparse(d)[:60] for d in nd.decorator_list], 'defs': []}
     if nd.decorator_list:
         report['dropped'].append('decorators (transparent): ' + '; '.join(report['decorators']))
@@ -940,7 +944,7 @@ def extract_function(ex, rel, name, kinds, opaque=None):
     comps = ret.items if isinstance(ret, PyTuple) else [ret]
     defs = []
     for idx, c in enumerate(comps):
-        lname = name if len(comps) == 1 else '%s_ret%d' % (name, idx)
+        lname = name + suffix if len(comps) == 1 else '%s%s_ret%d' % (name, suffix, idx)
         v = as_val(c)
         if v.shape == 'S':
             t = fin(v.f(), 'returned value')
@@ -994,19 +998,20 @@ def extract_all(repo=None, only=None):
         if only and name not in only:
             continue
         try:
-            defs, rep = extract_function(ex, rel, name, kinds, tgt[3] if len(tgt) > 3 else None)
+            suffix = tgt[4] if len(tgt) > 4 else ''
+            defs, rep = extract_function(ex, rel, name, kinds, tgt[3] if len(tgt) > 3 else None, suffix)
             rep['status'] = 'extracted'
-            out.append('/- %s.%s  (sha1 of source %s)\n   taken:\n%s\n   dropped / not needed for the result:\n%s\n-/' % (
-                rel, name, rep['sha1'],
+            out.append('/- %s.%s%s  (sha1 of source %s)\n   taken:\n%s\n   dropped / not needed for the result:\n%s\n-/' % (
+                rel, name, (' [variant %s]' % suffix) if suffix else '', rep['sha1'],
                 '\n'.join('     ' + t for t in rep['taken']) or '     -',
                 '\n'.join('     ' + t for t in rep['dropped'] + rep['poisoned']) or '     -'))
             for _, text in defs:
                 out.append(text)
         except OutOfSubset as e:
-            rep = {'function': name, 'file': rel, 'status': 'refused', 'reason': str(e), 'defs': []}
+            rep = {'function': name, 'target': name + (tgt[4] if len(tgt) > 4 else ''), 'file': rel, 'status': 'refused', 'reason': str(e), 'defs': []}
             out.append('/- %s.%s  REFUSED (out of the subset): %s -/\n' % (rel, name, str(e).replace('-/', '- /')))
         except (OSError, SyntaxError) as e:
-            rep = {'function': name, 'file': rel, 'status': 'refused', 'reason': 'cannot read/parse: %r' % (e,), 'defs': []}
+            rep = {'function': name, 'target': name + (tgt[4] if len(tgt) > 4 else ''), 'file': rel, 'status': 'refused', 'reason': 'cannot read/parse: %r' % (e,), 'defs': []}
             out.append('/- %s.%s  REFUSED: %r -/\n' % (rel, name, e))
         reports.append(rep)
     text = HEADER % {'repo': ex.repo} + '\n' + '\n'.join(out) + '\nend Extracted\n'
@@ -1028,7 +1033,7 @@ def main():
     with open(a.report, 'w') as fh:
         json.dump(reports, fh, indent=1)
     for r in reports:
-        print('%-22s %s %s' % (r['function'], r['status'], r.get('reason', ', '.join(d['name'] for d in r['defs']))))
+        print('%-26s %s %s' % (r['target'], r['status'], r.get('reason', ', '.join(d['name'] for d in r['defs']))))
     return 0
 
 
